@@ -59,7 +59,7 @@ template <class V> static std::vector<double> as_vec(const V &x) { std::vector<d
 static std::vector<double> crs_vals(const M &A) { return std::vector<double>(A.val, A.val + (A.nrows ? A.ptr[A.nrows] : 0)); }
 static double maxabs(const std::vector<double> &v) { double m = 0; for (double x : v) m = std::max(m, std::fabs(x)); return m; }
 
-struct Input { Csr<double> A; std::string family; bool sym_struct = true, sym_val = true, integer = false; };
+struct Input { Csr<double> A; std::string family; bool sym_struct = true, sym_val = true, integer = false; int block = 1; };
 
 //---------------------------------------------------------------------------
 // Everything that is computed at one thread count
@@ -123,6 +123,8 @@ static void compute_outputs(Outs &o, const Input &in, const Input &small, const 
     hierarchy_outputs(o, in, "smoothed_aggregation", "smoothed_aggregation", ptree(), true);
     { ptree p; p.put("coarsening.estimate_spectral_radius", true); p.put("coarsening.power_iters", 0); hierarchy_outputs(o, in, "smoothed_aggregation", "smoothed_aggregation_gershgorin", p, true); }
     hierarchy_outputs(o, in, "ruge_stuben", "ruge_stuben", ptree(), true);
+    if (in.block > 1) {     // pointwise (block) aggregates
+        ptree p; p.put("coarsening.aggr.block_size", in.block); hierarchy_outputs(o, in, "aggregation", "aggregation_block", p, true); hierarchy_outputs(o, in, "smoothed_aggregation", "smoothed_aggregation_block", p, true); }
     if (!bit_only) hierarchy_outputs(o, in, "smoothed_aggr_emin", "smoothed_aggr_emin", ptree(), false);
     // --- relaxation sweeps
     for (const char *rn : RELAX) {
@@ -151,6 +153,9 @@ static void compute_outputs(Outs &o, const Input &in, const Input &small, const 
             if (!small.sym_val && std::string(sn) == "cg") sn = "bicgstab";
             ptree p; p.put("precond.coarsening.type", cn); p.put("precond.relax.type", rn); p.put("precond.coarse_enough", 30); p.put("solver.type", sn); p.put("solver.tol", 1e-8); p.put("solver.maxiter", 300);
             std::string name = std::string("solve.") + cn + "+" + rn + "+" + sn; Out q; q.cls = ROUND;
+            // thread-seeded random vectors: power-iteration Chebyshev / spectral-radius estimate in smoothed aggregation (and IDR(s) shadow vectors)
+            if (std::string(rn) == "chebyshev" && cell % 2) { p.put("precond.relax.power_iters", 8); name += "[power]"; }
+            if (std::string(cn) == "smoothed_aggregation" && (cell / 4) % 3 == 0) { p.put("precond.coarsening.estimate_spectral_radius", true); p.put("precond.coarsening.power_iters", 5); name += "[sr-power]"; }
             try { Solver S(small.A.tie(), p); std::vector<double> sol(m, 0.0); size_t it; double res; std::tie(it, res) = S(rhs, sol);
                   q.vals = sol; q.iters = it; q.resid = res; q.converged = std::isfinite(res) && res <= 1e-8; }
             catch (const std::exception &e) { q.converged = false; q.resid = NAN; q.tag = std::string(":exception:") + e.what(); }
@@ -228,14 +233,15 @@ static void compare_all(Cmp &k, const std::vector<int> &threads, const std::vect
 static bool struct_sym(const Csr<double> &A) { Csr<double> T = vf::transpose(A); return T.ptr == A.ptr && T.col == A.col; }
 static std::string g_struct = "both";      // --struct=sym: only structurally symmetric systems on every level (TSan jobs: keeps the race of design finding F4 in its own job)
 static Input big_input(Rng &r, long idx, int nlo, int nhi) {
-    Input in; int fam = (int)(idx % 5);
-    if (g_struct == "sym") fam = (int)(idx % 4); else if (g_struct == "nonsym") fam = 4;
+    Input in; int fam = (int)(idx % 6);
+    if (g_struct == "sym") { fam = (int)(idx % 5); if (fam == 4) fam = 5; } else if (g_struct == "nonsym") fam = 4;
     switch (fam) {
         case 0: in.A = vf::model_problem(r, nlo, nhi); in.family = "G1-model"; break;
         case 1: { vf::GridSpec g; int s = (int)std::sqrt((double)r.range(nlo, nhi)); g.nx = s; g.ny = s; in.A = vf::grid_diffusion(g, r); in.family = "G1-integer-laplacian"; in.integer = true; break; }   // entries -1 / 4: every sum exact
         case 2: in.A = vf::graph_laplacian((size_t)r.range(nlo, nhi) / 2, r.uni(3, 6), r, false, true); in.family = "G2-graph"; break;
         case 3: { int s = (int)std::sqrt((double)r.range(nlo, nhi)); in.A = vf::convdiff(s, s, r.logu(0.1, 5), r, false); in.family = "G3-convdiff"; in.sym_val = false; break; }
-        default: { int s = (int)std::sqrt((double)r.range(nlo, nhi)); in.A = vf::convdiff(s, s, r.logu(0.1, 5), r, true); in.family = "G3-convdiff-structnonsym"; in.sym_val = false; }
+        case 4: { int s = (int)std::sqrt((double)r.range(nlo, nhi)); in.A = vf::convdiff(s, s, r.logu(0.1, 5), r, true); in.family = "G3-convdiff-structnonsym"; in.sym_val = false; break; }
+        default: { vf::GridSpec g; int s = (int)std::sqrt((double)r.range(nlo, nhi) / 2); g.nx = s; g.ny = s; g.contrast = r.logu(1, 10); in.A = vf::kron(vf::grid_diffusion(g, r), vf::spd_block(2, r), 2); in.family = "G5-kron-block2"; in.block = 2; }   // pointwise aggregates
     }
     in.sym_struct = struct_sym(in.A); return in;
 }
